@@ -23,7 +23,10 @@ LineAlphabet == { B("10 X = 1"), B("10"), B("10 PRINT 1 +"), B("10 PRINT \""), B
                   B(" 30 ") \o <<195, 169>>, <<9>> \o B("50 REM ") \o <<195, 169>>,
                   B(" 40 PRINT \"") \o <<226, 130, 172>> \o B("\" + 1"),
                   \* characters that are numeric but not ASCII digits, where a line number is expected
-                  <<239, 188, 146, 239, 188, 144>> \o B(" PRINT 1"), B("1") \o <<239, 188, 144>> \o B(" PRINT 2") }
+                  <<239, 188, 146, 239, 188, 144>> \o B(" PRINT 1"),
+                  \* a byte order mark (it is text like any other)
+                  <<239, 187, 191>> \o B("10 PRINT \"") \o <<226, 130, 172>> \o B("\";X"),
+                  B("1") \o <<239, 188, 144>> \o B(" PRINT 2") }
 
 VARIABLES file
 vars == <<file>>
